@@ -1260,4 +1260,1023 @@ theorem noop_summary (banned : List Kind) (anc : List Up) (d : BDir) (hk : d.kin
   rw [addBranch_leaf]; unfold addDirective
   rcases hk with hk | hk <;> rw [hk]
 
+/-! ### part D: a declaration commutes with its neighbour -/
+
+theorem FSim.refl {c : Cat} (h : Inv c) : FSim.Rel c c :=
+  ⟨⟨rfl, rfl, rfl, rfl, rfl, rfl⟩, ⟨List.Perm.refl _, h.servers_nodup⟩, List.Perm.refl _,
+    ⟨List.Perm.refl _, h.tags_nodup⟩⟩
+
+theorem FSim.symm {c c' : Cat} (h : FSim.Rel c c') : FSim.Rel c' c := by
+  obtain ⟨⟨h1, h2, h3, h4, h5, h6⟩, ⟨hs, hsn⟩, ht, ⟨hg, hgn⟩⟩ := h
+  exact ⟨⟨h1.symm, h2.symm, h3.symm, h4.symm, h5.symm, h6.symm⟩,
+    ⟨hs.symm, ((hs.map _).nodup_iff).2 hsn⟩, ht.symm, ⟨hg.symm, ((hg.map _).nodup_iff).2 hgn⟩⟩
+
+theorem FSim.trans {c c' c'' : Cat} (h : FSim.Rel c c') (h' : FSim.Rel c' c'') : FSim.Rel c c'' := by
+  obtain ⟨⟨h1, h2, h3, h4, h5, h6⟩, ⟨hs, hsn⟩, ht, ⟨hg, hgn⟩⟩ := h
+  obtain ⟨⟨k1, k2, k3, k4, k5, k6⟩, ⟨ks, _⟩, kt, ⟨kg, _⟩⟩ := h'
+  exact ⟨⟨k1.trans h1, k2.trans h2, k3.trans h3, k4.trans h4, k5.trans h5, k6.trans h6⟩,
+    ⟨ks.trans hs, hsn⟩, kt.trans ht, ⟨kg.trans hg, hgn⟩⟩
+
+theorem RRel.symm_sim {r r' : R Cat} (h : RRel FSim.Rel r r') : RRel FSim.Rel r' r := by
+  cases r with
+  | error e => cases r' with
+    | error e' => trivial
+    | ok y => cases h
+  | ok x => cases r' with
+    | error e' => cases h
+    | ok y => exact FSim.symm h
+
+theorem RRel.trans_sim {r r' r'' : R Cat} (h : RRel FSim.Rel r r') (h' : RRel FSim.Rel r' r'') :
+    RRel FSim.Rel r r'' := by
+  cases r with
+  | error e => cases r' with
+    | error e' => cases r'' with
+      | error _ => trivial
+      | ok _ => cases h'
+    | ok y => cases h
+  | ok x => cases r' with
+    | error e' => cases h
+    | ok y => cases r'' with
+      | error _ => cases h'
+      | ok z => exact FSim.trans h h'
+
+/-- equal verdicts and equal accepted results -/
+theorem rrel_of_exact {r r' : R Cat} (hinv : ∀ d, r = .ok d → Inv d)
+    (h : (∀ d, r = .ok d → r' = .ok d) ∧ (∀ e, r = .error e → ∃ e', r' = .error e')) :
+    RRel FSim.Rel r r' := by
+  cases r with
+  | error e => obtain ⟨e', he⟩ := h.2 e rfl; rw [he]; trivial
+  | ok d => rw [h.1 d rfl]; exact FSim.refl (hinv d rfl)
+
+/-- `A` has the effect `eff` under the condition `p` and fails otherwise; `B` does not disturb that -/
+theorem comm_exact {A B : Cat → R Cat} {c : Cat} {p : Cat → Prop} {eff : Cat → Cat}
+    (hA1 : ∀ x, p x → A x = .ok (eff x)) (hA2 : ∀ x, ¬ p x → ∃ e, A x = .error e)
+    (hB1 : p c → RRel (fun d d' => d' = eff d ∧ p d) (B c) (B (eff c)))
+    (hB2 : ¬ p c → ∀ d, B c = .ok d → ¬ p d) :
+    (∀ d, (A c >>= B) = .ok d → (B c >>= A) = .ok d) ∧
+    (∀ e, (A c >>= B) = .error e → ∃ e', (B c >>= A) = .error e') := by
+  by_cases hp : p c
+  · have h1 := hB1 hp
+    rw [hA1 c hp, ok_bind]
+    cases hb : B c with
+    | error e =>
+      rw [hb] at h1
+      cases hb' : B (eff c) with
+      | error e' => exact ⟨fun d hd => (by cases hd), fun _ _ => ⟨_, rfl⟩⟩
+      | ok d' => rw [hb'] at h1; cases h1
+    | ok d =>
+      rw [hb] at h1
+      cases hb' : B (eff c) with
+      | error e' => rw [hb'] at h1; cases h1
+      | ok d' =>
+        rw [hb'] at h1
+        obtain ⟨rfl, hpd⟩ := h1
+        rw [ok_bind, hA1 d hpd]
+        exact ⟨fun _ h => h, fun e he => (by cases he)⟩
+  · obtain ⟨e, he⟩ := hA2 c hp
+    rw [he, error_bind]
+    refine ⟨fun d hd => (by cases hd), fun _ _ => ?_⟩
+    cases hb : B c with
+    | error e' => exact ⟨_, rfl⟩
+    | ok d =>
+      obtain ⟨e', he'⟩ := hA2 d (hB2 hp d hb)
+      rw [ok_bind, he']; exact ⟨_, rfl⟩
+
+theorem fails_comm {A B : Cat → R Cat} (hA : Fails A) (c : Cat) : RRel FSim.Rel (A c >>= B) (B c >>= A) := by
+  obtain ⟨e, he⟩ := hA c
+  rw [he, error_bind]
+  cases hb : B c with
+  | error e' => trivial
+  | ok d => obtain ⟨e', he'⟩ := hA d; rw [ok_bind, he']; trivial
+
+theorem pair_eq (banned : List Kind) (a b : BTree) (c : Cat) :
+    addForest banned [] [a, b] c = addBranch banned [] a c >>= addBranch banned [] b := by
+  rw [addForest_cons]
+  have : addForest banned [] [b] = addBranch banned [] b := by funext x; exact addForest_single banned [] b x
+  rw [this]
+
+theorem with_types_self (c : Cat) : { c with types := c.types } = c := by cases c; rfl
+theorem with_servers_self (c : Cat) : { c with servers := c.servers } = c := by cases c; rfl
+
+/-- a TYPE and a block without TYPE directives -/
+theorem comm_type (banned : List Kind) (da : BDir) (hk : da.kind = .Type) (b : BTree)
+    (hb : allT (fun d => d.kind != .Type) b = true) (c : Cat) (hc : Inv c) :
+    RRel FSim.Rel (addForest banned [] [.node da [], b] c) (addForest banned [] [b, .node da []] c) := by
+  have hinv : ∀ d, addForest banned [] [.node da [], b] c = .ok d → Inv d :=
+    fun d hd => addForest_inv banned [] _ c d hc hd
+  rw [pair_eq, pair_eq] at *
+  have hall : allF (fun d => d.kind != .Type) [b] = true := by rw [allF, allF, hb]; rfl
+  have hB : ∀ (x : Cat) (T1 : List TypeM),
+      RRel (FTypes x.types T1).Rel (addBranch banned [] b x) (addBranch banned [] b { x with types := T1 }) := by
+    intro x T1
+    have := types_lift banned [] [b] x T1 hall (by intro u hu; cases hu)
+    rwa [addForest_single, addForest_single] at this
+  rcases type_summary banned [] da hk with hf | ⟨t, ht⟩
+  · exact fails_comm hf c
+  · apply rrel_of_exact hinv
+    apply comm_exact (p := fun x => x.types.any (fun y => y.name == t.name) = false)
+      (eff := fun x => { x with types := x.types ++ [t] })
+    · intro x hx; rw [ht x, hx]; rfl
+    · intro x hx; rw [ht x]
+      have : x.types.any (fun y => y.name == t.name) = true := by simpa using hx
+      rw [this]; exact ⟨_, rfl⟩
+    · intro hp
+      refine (hB c (c.types ++ [t])).mono ?_
+      intro d d' hr
+      obtain ⟨h1, h2⟩ := FTypes.out hr
+      refine ⟨by rw [h1, h2], ?_⟩
+      show d.types.any _ = false
+      rw [h2]; exact hp
+    · intro hp d hd
+      have := hB c c.types
+      rw [with_types_self c, hd] at this
+      have h2 := (FTypes.out this).2
+      show ¬ d.types.any _ = false
+      rw [h2]; exact hp
+
+/-- a SERVER and a block without SERVER and BaseUrl directives -/
+theorem comm_server (banned : List Kind) (da : BDir) (ka : List BTree) (hk : da.kind = .Server)
+    (hka : ka.all (leafOf .BaseURL) = true) (b : BTree)
+    (hb : allT noServerKind b = true) (c : Cat) (hc : Inv c) :
+    RRel FSim.Rel (addForest banned [] [.node da ka, b] c) (addForest banned [] [b, .node da ka] c) := by
+  have hinv : ∀ d, addForest banned [] [.node da ka, b] c = .ok d → Inv d :=
+    fun d hd => addForest_inv banned [] _ c d hc hd
+  rw [pair_eq, pair_eq] at *
+  have hall : allF noServerKind [b] = true := by rw [allF, allF, hb]; rfl
+  have hB : ∀ (x : Cat) (S1 : List ServerM),
+      RRel (FServers x.servers S1).Rel (addBranch banned [] b x) (addBranch banned [] b { x with servers := S1 }) := by
+    intro x S1
+    have := servers_lift banned [] [b] x S1 hall (by intro u hu; cases hu)
+    rwa [addForest_single, addForest_single] at this
+  rcases server_summary banned [] da ka hk hka with hf | ⟨t, ht⟩
+  · exact fails_comm hf c
+  · apply rrel_of_exact hinv
+    apply comm_exact (p := fun x => x.servers.any (fun y => y.name == t.name) = false)
+      (eff := fun x => { x with servers := x.servers ++ [t] })
+    · intro x hx; rw [ht x, hx]; rfl
+    · intro x hx; rw [ht x]
+      have : x.servers.any (fun y => y.name == t.name) = true := by simpa using hx
+      rw [this]; exact ⟨_, rfl⟩
+    · intro hp
+      refine (hB c (c.servers ++ [t])).mono ?_
+      intro d d' hr
+      obtain ⟨h1, h2⟩ := FServers.out hr
+      refine ⟨by rw [h1, h2], ?_⟩
+      show d.servers.any _ = false
+      rw [h2]; exact hp
+    · intro hp d hd
+      have := hB c c.servers
+      rw [with_servers_self c, hd] at this
+      have h2 := (FServers.out this).2
+      show ¬ d.servers.any _ = false
+      rw [h2]; exact hp
+
+theorem descrStep_ok {e1 e2 : BErr} {n text : Bytes} {x : Cat} (hx : (x.getTag n).map (·.descr) = some none) :
+    descrStep e1 e2 n text x = .ok (x.updTag n fun t => { t with descr := some text }) := by
+  unfold descrStep
+  cases hg : x.getTag n with
+  | none => rw [hg] at hx; cases hx
+  | some t =>
+    rw [hg] at hx
+    have : t.descr = none := by simpa using hx
+    simp only [this]; rfl
+
+theorem descrStep_err {e1 e2 : BErr} {n text : Bytes} {x : Cat} (hx : ¬ (x.getTag n).map (·.descr) = some none) :
+    ∃ e, descrStep e1 e2 n text x = .error e := by
+  unfold descrStep
+  cases hg : x.getTag n with
+  | none => exact ⟨_, rfl⟩
+  | some t =>
+    rw [hg] at hx
+    simp only []
+    split
+    · exact ⟨_, rfl⟩
+    · rename_i h
+      exfalso; apply hx
+      cases hd : t.descr with
+      | none => simp [hd]
+      | some v => rw [hd] at h; simp at h
+
+theorem getTag_isSome_of_mem {c : Cat} {n : Bytes} (h : n ∈ c.tags.map (·.name)) : ∃ t, c.getTag n = some t := by
+  cases hg : c.getTag n with
+  | some t => exact ⟨t, rfl⟩
+  | none =>
+    obtain ⟨t, ht, rfl⟩ := List.mem_map.1 h
+    exact absurd rfl (getTag_none hg t ht)
+
+/-- a TAG (with its Description) and a block without TAG directives -/
+theorem comm_tag (banned : List Kind) (da : BDir) (ka : List BTree) (hk : da.kind = .TAG)
+    (hka : ka.all (leafOf .Description) = true) (b : BTree)
+    (hb : allT (fun d => d.kind != .TAG) b = true) (c : Cat) (hc : Inv c)
+    (hn : da.param "TagName" ∈ c.tags.map (·.name)) :
+    RRel FSim.Rel (addForest banned [] [.node da ka, b] c) (addForest banned [] [b, .node da ka] c) := by
+  have hinv : ∀ d, addForest banned [] [.node da ka, b] c = .ok d → Inv d :=
+    fun d hd => addForest_inv banned [] _ c d hc hd
+  rw [pair_eq, pair_eq] at *
+  have hall : allF (fun d => d.kind != .TAG) [b] = true := by rw [allF, allF, hb]; rfl
+  rcases tag_summary banned [] da ka hk hka with hf | hid | ⟨e1, e2, text, ht⟩
+  · exact fails_comm hf c
+  · apply rrel_of_exact hinv
+    have : addBranch banned [] (.node da ka) = fun x => (.ok x : R Cat) := funext hid
+    rw [this, ok_bind, bind_ok_right]
+    exact ⟨fun _ h => h, fun e he => ⟨e, he⟩⟩
+  · have hA : addBranch banned [] (.node da ka) = descrStep e1 e2 (da.param "TagName") text := funext ht
+    rw [hA] at hinv ⊢
+    have hB : ∀ x0, (c.getTag (da.param "TagName")).map (·.descr) = some x0 →
+        RRel (FDescr (da.param "TagName") text x0).Rel (addBranch banned [] b c)
+          (addBranch banned [] b (c.updTag (da.param "TagName") fun t => { t with descr := some text })) := by
+      intro x0 hx
+      have := descr_lift banned [] [b] c (da.param "TagName") text x0 hx hall (by intro u hu; cases hu)
+      rwa [addForest_single, addForest_single] at this
+    apply rrel_of_exact hinv
+    apply comm_exact (p := fun x => (x.getTag (da.param "TagName")).map (·.descr) = some none)
+      (eff := fun x => x.updTag (da.param "TagName") fun t => { t with descr := some text })
+    · intro x hx; exact descrStep_ok hx
+    · intro x hx; exact descrStep_err hx
+    · intro hp
+      refine (hB none hp).mono ?_
+      intro d d' hr
+      exact FDescr.out hr
+    · intro hp d hd
+      obtain ⟨t, hg⟩ := getTag_isSome_of_mem hn
+      have := hB t.descr (by rw [hg]; rfl)
+      rw [hd] at this
+      cases hb' : addBranch banned [] b (c.updTag (da.param "TagName") fun t => { t with descr := some text }) with
+      | error e => rw [hb'] at this; cases this
+      | ok d' =>
+        rw [hb'] at this
+        have h2 := (FDescr.out this).2
+        show ¬ _ = some none
+        rw [h2]
+        intro h3
+        apply hp
+        rw [hg]
+        simpa using h3
+
+/-- ENUM, MACRO without children -/
+theorem comm_noop (banned : List Kind) (da : BDir) (hk : da.kind = .Enum ∨ da.kind = .Macro) (b : BTree)
+    (c : Cat) (hc : Inv c) :
+    RRel FSim.Rel (addForest banned [] [.node da [], b] c) (addForest banned [] [b, .node da []] c) := by
+  have hinv : ∀ d, addForest banned [] [.node da [], b] c = .ok d → Inv d :=
+    fun d hd => addForest_inv banned [] _ c d hc hd
+  rw [pair_eq, pair_eq] at *
+  by_cases hbn : banned.contains da.kind = true
+  · apply fails_comm
+    intro x; rw [noop_summary banned [] da hk x, if_pos hbn]; exact ⟨_, rfl⟩
+  · have : addBranch banned [] (.node da []) = fun x => (.ok x : R Cat) := by
+      funext x; rw [noop_summary banned [] da hk x, if_neg hbn]
+    apply rrel_of_exact hinv
+    rw [this, ok_bind, bind_ok_right]
+    exact ⟨fun _ h => h, fun e he => ⟨e, he⟩⟩
+
+theorem perm_snoc2 {α : Type} (l : List α) (a b : α) : (l ++ [b] ++ [a]).Perm (l ++ [a] ++ [b]) := by
+  rw [List.append_assoc, List.append_assoc]
+  exact List.Perm.append_left l (List.Perm.swap a b [])
+
+/-- two TYPE declarations -/
+theorem appendsType_comm {da db : BDir} {ta tb : TypeM} {A B : Cat → R Cat} (hA : AppendsType da ta A)
+    (hB : AppendsType db tb B) (c : Cat) (hc : Inv c) : RRel FSim.Rel (A c >>= B) (B c >>= A) := by
+  rw [hA c, hB c]
+  by_cases h1 : c.types.any (fun x => x.name == ta.name) = true
+  · rw [if_pos h1, fail_bind]
+    by_cases h2 : c.types.any (fun x => x.name == tb.name) = true
+    · rw [if_pos h2]; exact RRel.fail
+    · rw [if_neg h2, ok_bind, hA]
+      have : (c.types ++ [tb]).any (fun x => x.name == ta.name) = true := by simp [List.any_append, h1]
+      simp only [this, if_true]; exact RRel.fail
+  · rw [if_neg h1, ok_bind, hB]
+    by_cases h2 : c.types.any (fun x => x.name == tb.name) = true
+    · have : (c.types ++ [ta]).any (fun x => x.name == tb.name) = true := by simp [List.any_append, h2]
+      simp only [this, if_true, h2]; exact RRel.fail
+    · rw [if_neg h2, ok_bind, hA]
+      have e1 : (c.types ++ [ta]).any (fun x => x.name == tb.name) = (ta.name == tb.name) := by
+        simp [List.any_append, h2]
+      have e2 : (c.types ++ [tb]).any (fun x => x.name == ta.name) = (tb.name == ta.name) := by
+        simp [List.any_append, h1]
+      simp only [e1, e2]
+      by_cases h3 : ta.name = tb.name
+      · simp only [h3, beq_self_eq_true, if_true]; exact RRel.fail
+      · have h4 : (ta.name == tb.name) = false := by simpa using h3
+        have h5 : (tb.name == ta.name) = false := by simpa using (Ne.symm h3)
+        simp only [h4, h5, Bool.false_eq_true, if_false]
+        exact ⟨⟨rfl, rfl, rfl, rfl, rfl, rfl⟩, ⟨List.Perm.refl _, hc.servers_nodup⟩, perm_snoc2 _ _ _,
+          ⟨List.Perm.refl _, hc.tags_nodup⟩⟩
+
+/-- two SERVER declarations -/
+theorem appendsServer_comm {da db : BDir} {ta tb : ServerM} {A B : Cat → R Cat} (hA : AppendsServer da ta A)
+    (hB : AppendsServer db tb B) (c : Cat) (hinv : ∀ d, (A c >>= B) = .ok d → Inv d) :
+    RRel FSim.Rel (A c >>= B) (B c >>= A) := by
+  revert hinv
+  rw [hA c, hB c]
+  by_cases h1 : c.servers.any (fun x => x.name == ta.name) = true
+  · rw [if_pos h1, fail_bind]
+    intro _
+    by_cases h2 : c.servers.any (fun x => x.name == tb.name) = true
+    · rw [if_pos h2]; exact RRel.fail
+    · rw [if_neg h2, ok_bind, hA]
+      have : (c.servers ++ [tb]).any (fun x => x.name == ta.name) = true := by simp [List.any_append, h1]
+      simp only [this, if_true]; exact RRel.fail
+  · rw [if_neg h1, ok_bind, hB]
+    by_cases h2 : c.servers.any (fun x => x.name == tb.name) = true
+    · have : (c.servers ++ [ta]).any (fun x => x.name == tb.name) = true := by simp [List.any_append, h2]
+      simp only [this, if_true, h2]; intro _; exact RRel.fail
+    · rw [if_neg h2, ok_bind, hA]
+      have e1 : (c.servers ++ [ta]).any (fun x => x.name == tb.name) = (ta.name == tb.name) := by
+        simp [List.any_append, h2]
+      have e2 : (c.servers ++ [tb]).any (fun x => x.name == ta.name) = (tb.name == ta.name) := by
+        simp [List.any_append, h1]
+      simp only [e1, e2]
+      by_cases h3 : ta.name = tb.name
+      · simp only [h3, beq_self_eq_true, if_true]; intro _; exact RRel.fail
+      · have h4 : (ta.name == tb.name) = false := by simpa using h3
+        have h5 : (tb.name == ta.name) = false := by simpa using (Ne.symm h3)
+        simp only [h4, h5, Bool.false_eq_true, if_false]
+        intro hinv
+        have hi := hinv _ rfl
+        exact ⟨⟨rfl, rfl, rfl, rfl, rfl, rfl⟩, ⟨perm_snoc2 _ _ _, hi.servers_nodup⟩, List.Perm.refl _,
+          ⟨List.Perm.refl _, hi.tags_nodup⟩⟩
+
+theorem updTag_comm (c : Cat) (m n : Bytes) (f g : TagM → TagM) (hmn : m ≠ n) (hf : ∀ x, (f x).name = x.name)
+    (hg : ∀ x, (g x).name = x.name) : (c.updTag m f).updTag n g = (c.updTag n g).updTag m f := by
+  unfold Cat.updTag
+  simp only [List.map_map]
+  congr 1
+  apply List.map_congr_left
+  intro x _
+  simp only [Function.comp]
+  by_cases h1 : (x.name == m) = true <;> by_cases h2 : (x.name == n) = true
+  · exfalso; apply hmn
+    have e1 : x.name = m := by simpa using h1
+    have e2 : x.name = n := by simpa using h2
+    exact e1.symm.trans e2
+  · simp [h1, h2, hf]
+  · simp [h1, h2, hg]
+  · simp [h1, h2]
+
+/-- the description status of the tag `m` does not depend on the description of another tag -/
+theorem descr_other (c : Cat) (m n text : Bytes) (hmn : m ≠ n) :
+    ((c.updTag m fun t => { t with descr := some text }).getTag n).map (·.descr) = (c.getTag n).map (·.descr) := by
+  rw [getTag_updTag c m n (fun t => { t with descr := some text }) (fun _ => rfl)]
+  cases hg : c.getTag n with
+  | none => rfl
+  | some t =>
+    have hn : t.name = n := (getTag_some hg).2
+    have : (t.name == m) = false := by
+      rw [hn]; simpa using (Ne.symm hmn)
+    simp only [Option.map_some, this, Bool.false_eq_true, if_false]
+
+/-- two Descriptions of one tag -/
+theorem descrStep_twice (e1 e2 e3 e4 : BErr) (n ta tb : Bytes) (c : Cat) :
+    ∃ e, (descrStep e1 e2 n ta c >>= descrStep e3 e4 n tb) = .error e := by
+  unfold descrStep
+  cases hg : c.getTag n with
+  | none => exact ⟨_, rfl⟩
+  | some t =>
+    simp only []
+    split
+    · exact ⟨_, rfl⟩
+    · rw [ok_bind, getTag_updTag c _ _ (fun t => { t with descr := some ta }) (fun _ => rfl), hg]
+      have hn : (t.name == n) = true := by
+        have := (getTag_some hg).2; simp [this]
+      simp only [Option.map_some, hn, if_true, Option.isSome_some]
+      exact ⟨_, rfl⟩
+
+/-- two TAG declarations with one Description each -/
+theorem descrStep_comm (e1 e2 e3 e4 : BErr) (na ta nb tb : Bytes) (c : Cat)
+    (hinv : ∀ d, (descrStep e1 e2 na ta c >>= descrStep e3 e4 nb tb) = .ok d → Inv d) :
+    RRel FSim.Rel (descrStep e1 e2 na ta c >>= descrStep e3 e4 nb tb)
+      (descrStep e3 e4 nb tb c >>= descrStep e1 e2 na ta) := by
+  by_cases hab : na = nb
+  · subst hab
+    obtain ⟨x, hx⟩ := descrStep_twice e1 e2 e3 e4 na ta tb c
+    obtain ⟨y, hy⟩ := descrStep_twice e3 e4 e1 e2 na tb ta c
+    rw [hx, hy]; trivial
+  · apply rrel_of_exact hinv
+    apply comm_exact (p := fun x => (x.getTag na).map (·.descr) = some none)
+      (eff := fun x => x.updTag na fun t => { t with descr := some ta })
+    · intro x hx; exact descrStep_ok hx
+    · intro x hx; exact descrStep_err hx
+    · intro hp
+      by_cases hq : (c.getTag nb).map (·.descr) = some none
+      · have hq' : ((c.updTag na fun t => { t with descr := some ta }).getTag nb).map (·.descr) = some none := by
+          rw [descr_other c na nb ta hab]; exact hq
+        rw [descrStep_ok hq, descrStep_ok hq']
+        refine ⟨updTag_comm c na nb _ _ hab (fun _ => rfl) (fun _ => rfl), ?_⟩
+        show ((c.updTag nb fun t => { t with descr := some tb }).getTag na).map (·.descr) = some none
+        rw [descr_other c nb na tb (Ne.symm hab)]; exact hp
+      · have hq' : ¬ ((c.updTag na fun t => { t with descr := some ta }).getTag nb).map (·.descr) = some none := by
+          rw [descr_other c na nb ta hab]; exact hq
+        obtain ⟨x, hx⟩ := descrStep_err (e1 := e3) (e2 := e4) (text := tb) hq
+        obtain ⟨y, hy⟩ := descrStep_err (e1 := e3) (e2 := e4) (text := tb) hq'
+        rw [hx, hy]; trivial
+    · intro hp d hd
+      by_cases hq : (c.getTag nb).map (·.descr) = some none
+      · rw [descrStep_ok hq] at hd
+        cases hd
+        show ¬ ((c.updTag nb fun t => { t with descr := some tb }).getTag na).map (·.descr) = some none
+        rw [descr_other c nb na tb (Ne.symm hab)]; exact hp
+      · obtain ⟨x, hx⟩ := descrStep_err (e1 := e3) (e2 := e4) (text := tb) hq
+        rw [hx] at hd; cases hd
+
+theorem id_comm {A B : Cat → R Cat} (hA : ∀ x, A x = .ok x) (c : Cat) (hinv : ∀ d, (A c >>= B) = .ok d → Inv d) :
+    RRel FSim.Rel (A c >>= B) (B c >>= A) := by
+  apply rrel_of_exact hinv
+  have : A = fun x => (.ok x : R Cat) := funext hA
+  rw [this, ok_bind, bind_ok_right]
+  exact ⟨fun _ h => h, fun e he => ⟨e, he⟩⟩
+
+/-! #### blocks -/
+
+def plainKind (d : BDir) : Bool :=
+  d.kind != .Type && d.kind != .Server && d.kind != .BaseURL && d.kind != .TAG
+
+/-- a declaration, or a tree without TYPE, SERVER, BaseUrl, TAG directives -/
+def isBlock (t : BTree) : Bool := isDecl t || allT plainKind t
+
+mutual
+  theorem allT_mono {P Q : BDir → Bool} (h : ∀ d, P d = true → Q d = true) :
+      ∀ t : BTree, allT P t = true → allT Q t = true
+    | .node d kids, ht => by
+      rw [allT, Bool.and_eq_true] at ht ⊢
+      exact ⟨h d ht.1, allF_mono h kids ht.2⟩
+  theorem allF_mono {P Q : BDir → Bool} (h : ∀ d, P d = true → Q d = true) :
+      ∀ ts : List BTree, allF P ts = true → allF Q ts = true
+    | [], _ => by rw [allF]
+    | t :: r, ht => by
+      rw [allF, Bool.and_eq_true] at ht ⊢
+      exact ⟨allT_mono h t ht.1, allF_mono h r ht.2⟩
+end
+
+theorem allF_leaves (P : BDir → Bool) (k : Kind) (hPk : ∀ x : BDir, x.kind = k → P x = true) :
+    ∀ kids : List BTree, kids.all (leafOf k) = true → allF P kids = true
+  | [], _ => by rw [allF]
+  | t :: r, h => by
+    simp only [List.all_cons, Bool.and_eq_true] at h
+    obtain ⟨dk, rfl, hdk⟩ := leafOf_eq h.1
+    rw [allF, allT, allF, hPk dk hdk, allF_leaves P k hPk r h.2]; rfl
+
+theorem decl_cases {d : BDir} {kids : List BTree} (h : isDecl (.node d kids) = true) :
+    ((d.kind = .Type ∨ d.kind = .Enum ∨ d.kind = .Macro) ∧ kids = []) ∨
+    (d.kind = .Server ∧ kids.all (leafOf .BaseURL) = true) ∨
+    (d.kind = .TAG ∧ kids.all (leafOf .Description) = true) := by
+  unfold isDecl at h
+  simp only [BTree.dir, BTree.kids] at h
+  split at h
+  · rename_i hk; exact Or.inl ⟨Or.inl hk, by simpa using h⟩
+  · rename_i hk; exact Or.inl ⟨Or.inr (Or.inl hk), by simpa using h⟩
+  · rename_i hk; exact Or.inl ⟨Or.inr (Or.inr hk), by simpa using h⟩
+  · rename_i hk; exact Or.inr (Or.inl ⟨hk, h⟩)
+  · rename_i hk; exact Or.inr (Or.inr ⟨hk, h⟩)
+  · cases h
+
+/-- a declaration that is not of one of the kinds excluded by `P` satisfies `P` everywhere -/
+theorem decl_all (P : BDir → Bool) {d : BDir} {kids : List BTree} (h : isDecl (.node d kids) = true)
+    (hroot : P d = true)
+    (h1 : d.kind = .Server → ∀ x : BDir, x.kind = .BaseURL → P x = true)
+    (h2 : d.kind = .TAG → ∀ x : BDir, x.kind = .Description → P x = true) : allT P (.node d kids) = true := by
+  rw [allT, hroot, Bool.true_and]
+  rcases decl_cases h with ⟨_, rfl⟩ | ⟨hk, hl⟩ | ⟨hk, hl⟩
+  · rw [allF]
+  · exact allF_leaves P _ (h1 hk) kids hl
+  · exact allF_leaves P _ (h2 hk) kids hl
+
+theorem block_no {P : BDir → Bool} (hplain : ∀ d, plainKind d = true → P d = true) {b : BTree}
+    (hb : isBlock b = true) (hroot : P b.dir = true)
+    (h1 : b.dir.kind = .Server → ∀ x : BDir, x.kind = .BaseURL → P x = true)
+    (h2 : b.dir.kind = .TAG → ∀ x : BDir, x.kind = .Description → P x = true) : allT P b = true := by
+  unfold isBlock at hb
+  rw [Bool.or_eq_true] at hb
+  rcases hb with hb | hb
+  · cases b with
+    | node d kids => exact decl_all P hb hroot h1 h2
+  · exact allT_mono hplain b hb
+
+theorem block_decl_of {b : BTree} (hb : isBlock b = true)
+    (hk : b.dir.kind = .Type ∨ b.dir.kind = .Server ∨ b.dir.kind = .TAG) : isDecl b = true := by
+  unfold isBlock at hb
+  rw [Bool.or_eq_true] at hb
+  rcases hb with hb | hb
+  · exact hb
+  · cases b with
+    | node d kids =>
+      rw [allT, Bool.and_eq_true] at hb
+      have := hb.1
+      simp only [BTree.dir] at hk
+      rcases hk with hk | hk | hk <;> simp [plainKind, hk] at this
+
+/-- (the core of C10) a declaration and the block that follows it may be exchanged -/
+theorem comm (banned : List Kind) (a b : BTree) (ha : isDecl a = true) (hb : isBlock b = true) (c : Cat)
+    (hc : Inv c) (hn : a.dir.kind = .TAG → a.dir.param "TagName" ∈ c.tags.map (·.name)) :
+    RRel FSim.Rel (addForest banned [] [a, b] c) (addForest banned [] [b, a] c) := by
+  have hinv : ∀ d, addForest banned [] [a, b] c = .ok d → Inv d :=
+    fun d hd => addForest_inv banned [] _ c d hc hd
+  have hinv' : ∀ d, addForest banned [] [b, a] c = .ok d → Inv d :=
+    fun d hd => addForest_inv banned [] _ c d hc hd
+  cases a with
+  | node da ka =>
+  rcases decl_cases ha with ⟨hk, rfl⟩ | ⟨hk, hl⟩ | ⟨hk, hl⟩
+  · rcases hk with hk | hk
+    · -- TYPE
+      by_cases hbk : b.dir.kind = .Type
+      · have hbd := block_decl_of hb (Or.inl hbk)
+        cases b with
+        | node db kb =>
+        rcases decl_cases hbd with ⟨_, rfl⟩ | ⟨hk', _⟩ | ⟨hk', _⟩
+        · rw [pair_eq, pair_eq]
+          rcases type_summary banned [] da hk with hf | ⟨ta, hta⟩
+          · exact fails_comm hf c
+          · rcases type_summary banned [] db hbk with hf | ⟨tb, htb⟩
+            · exact (fails_comm hf c).symm_sim
+            · exact appendsType_comm hta htb c hc
+        · simp only [BTree.dir] at hbk; rw [hbk] at hk'; cases hk'
+        · simp only [BTree.dir] at hbk; rw [hbk] at hk'; cases hk'
+      · apply comm_type banned da hk b _ c hc
+        apply block_no _ hb
+        · simpa using hbk
+        · intro _ x hx; simp [hx]
+        · intro _ x hx; simp [hx]
+        · intro d hd; simp only [plainKind, Bool.and_eq_true] at hd; exact hd.1.1.1
+    · exact comm_noop banned da hk b c hc
+  · -- SERVER
+    by_cases hbk : b.dir.kind = .Server
+    · have hbd := block_decl_of hb (Or.inr (Or.inl hbk))
+      cases b with
+      | node db kb =>
+      rcases decl_cases hbd with ⟨hk', _⟩ | ⟨_, hl'⟩ | ⟨hk', _⟩
+      · simp only [BTree.dir] at hbk; rw [hbk] at hk'; rcases hk' with h | h | h <;> cases h
+      · rw [pair_eq, pair_eq] at *
+        rcases server_summary banned [] da ka hk hl with hf | ⟨ta, hta⟩
+        · exact fails_comm hf c
+        · rcases server_summary banned [] db kb hbk hl' with hf | ⟨tb, htb⟩
+          · exact (fails_comm hf c).symm_sim
+          · exact appendsServer_comm hta htb c hinv
+      · simp only [BTree.dir] at hbk; rw [hbk] at hk'; cases hk'
+    · apply comm_server banned da ka hk hl b _ c hc
+      apply block_no _ hb
+      · simp only [noServerKind, Bool.and_eq_true, bne_iff_ne]
+        refine ⟨hbk, ?_⟩
+        intro h
+        unfold isBlock at hb
+        rw [Bool.or_eq_true] at hb
+        cases b with
+        | node db kb =>
+        simp only [BTree.dir] at h
+        rcases hb with hb | hb
+        · rcases decl_cases hb with ⟨hk', _⟩ | ⟨hk', _⟩ | ⟨hk', _⟩ <;> rw [h] at hk'
+          · rcases hk' with h | h | h <;> cases h
+          · cases hk'
+          · cases hk'
+        · rw [allT, Bool.and_eq_true] at hb
+          have := hb.1
+          simp [plainKind, h] at this
+      · intro h; exact absurd h hbk
+      · intro _ x hx; simp [noServerKind, hx]
+      · intro d hd
+        simp only [plainKind, Bool.and_eq_true] at hd
+        simp only [noServerKind, Bool.and_eq_true]
+        exact ⟨hd.1.1.2, hd.1.2⟩
+  · -- TAG
+    have hn' := hn hk
+    simp only [BTree.dir] at hn'
+    by_cases hbk : b.dir.kind = .TAG
+    · have hbd := block_decl_of hb (Or.inr (Or.inr hbk))
+      cases b with
+      | node db kb =>
+      rcases decl_cases hbd with ⟨hk', _⟩ | ⟨hk', _⟩ | ⟨_, hl'⟩
+      · simp only [BTree.dir] at hbk; rw [hbk] at hk'; rcases hk' with h | h | h <;> cases h
+      · simp only [BTree.dir] at hbk; rw [hbk] at hk'; cases hk'
+      · rw [pair_eq, pair_eq] at *
+        rcases tag_summary banned [] da ka hk hl with hf | hid | ⟨e1, e2, ta, hta⟩
+        · exact fails_comm hf c
+        · exact id_comm hid c hinv
+        · rcases tag_summary banned [] db kb hbk hl' with hf | hid | ⟨e3, e4, tb, htb⟩
+          · exact (fails_comm hf c).symm_sim
+          · exact (id_comm hid c hinv').symm_sim
+          · have eA : addBranch banned [] (.node da ka) = descrStep e1 e2 (da.param "TagName") ta := funext hta
+            have eB : addBranch banned [] (.node db kb) = descrStep e3 e4 (db.param "TagName") tb := funext htb
+            rw [eA, eB] at hinv ⊢
+            exact descrStep_comm e1 e2 e3 e4 _ ta _ tb c hinv
+    · apply comm_tag banned da ka hk hl b _ c hc hn'
+      apply block_no _ hb
+      · simpa using hbk
+      · intro _ x hx; simp [hx]
+      · intro h; exact absurd h hbk
+      · intro d hd; simp only [plainKind, Bool.and_eq_true] at hd; exact hd.2
+
+/-! ### part E: the stages of `compile` -/
+
+def headCheck (f : List BTree) : R Unit :=
+  match f with
+  | t :: _ => if t.dir.kind != .Jsight then fail t.dir .jsightFirst else pure ()
+  | [] => pure ()
+
+def finish (c : Cat) : R Cat := do
+  validateInfo c
+  validateRequestBody c.inters
+  validateResponseBody c.inters
+  pure c
+
+theorem compile_eq (banned : List Kind) (f : List BTree) : compile banned f = (do
+    let c ← collectTags f {}
+    checkTypeNames f
+    let _ ← pathsForest [] f none
+    headCheck f
+    let c ← addForest banned [] f c
+    finish c) := by
+  unfold compile headCheck finish
+  cases f with
+  | nil => rfl
+  | cons t r =>
+    cases collectTags (t :: r) {} with
+    | error e => rfl
+    | ok c0 =>
+      cases checkTypeNames (t :: r) with
+      | error e => rfl
+      | ok u =>
+        cases pathsForest [] (t :: r) none with
+        | error e => rfl
+        | ok l =>
+          by_cases h : (t.dir.kind != Kind.Jsight) = true
+          · simp only [h, if_true]
+            first | rfl | skip
+          · simp only [h, if_false]
+            first | rfl | skip
+
+def chk (c : Cat) : R Unit := do
+  validateInfo c
+  validateRequestBody c.inters
+  validateResponseBody c.inters
+
+theorem finish_eq (c : Cat) : finish c = chk c >>= fun _ => .ok c := by
+  unfold finish chk
+  simp only [bind_bind]
+  rfl
+
+theorem chk_sim {c c' : Cat} (h : FSim.Rel c c') : chk c' = chk c := by
+  unfold chk validateInfo
+  rw [h.eq6.info, h.eq6.inters]
+
+theorem finish_sim {c c' : Cat} (h : FSim.Rel c c') : RRel FSim.Rel (finish c) (finish c') := by
+  rw [finish_eq, finish_eq, chk_sim h]
+  cases chk c with
+  | error e => trivial
+  | ok _ => exact h
+
+/-! #### `collectTags` -/
+
+def ctStep (t : BTree) (c : Cat) : R Cat :=
+  if t.dir.kind == .TAG then
+    if (t.dir.param "TagName").isEmpty then fail t.dir (.required "TagName")
+    else if c.tags.any (fun x => x.name == t.dir.param "TagName") then fail t.dir .duplicateNames
+    else
+      let n := t.dir.param "TagName"
+      .ok { c with tags := c.tags ++ [{ name := n, title := if t.dir.annot.isEmpty then n else t.dir.annot, declared := true }] }
+  else .ok c
+
+theorem getTag_isSome_eq (c : Cat) (n : Bytes) : (c.getTag n).isSome = c.tags.any (fun x => x.name == n) := by
+  unfold Cat.getTag
+  rw [Bool.eq_iff_iff, List.find?_isSome, List.any_eq_true]
+
+theorem collectTags_cons (t : BTree) (r : List BTree) (c : Cat) :
+    collectTags (t :: r) c = ctStep t c >>= collectTags r := by
+  rw [collectTags]
+  unfold ctStep
+  simp only [getTag_isSome_eq]
+  split
+  · split
+    · rfl
+    · split <;> rfl
+  · rfl
+
+theorem collectTags_nil (c : Cat) : collectTags [] c = .ok c := by rw [collectTags]
+
+theorem collectTags_append (l r : List BTree) (c : Cat) :
+    collectTags (l ++ r) c = collectTags l c >>= collectTags r := by
+  induction l generalizing c with
+  | nil => rw [List.nil_append, collectTags_nil]; rfl
+  | cons t l ih =>
+    rw [List.cons_append, collectTags_cons, collectTags_cons, bind_bind]
+    cases ctStep t c with
+    | error e => rfl
+    | ok x => exact ih x
+
+theorem ctStep_inv {t : BTree} {c d : Cat} (hc : Inv c) (h : ctStep t c = .ok d) : Inv d := by
+  apply collectTags_inv [t] c d hc
+  rw [collectTags_cons, h, ok_bind, collectTags_nil]
+
+theorem ctStep_sim (t : BTree) {c c' : Cat} (h : FSim.Rel c c') : RRel FSim.Rel (ctStep t c) (ctStep t c') := by
+  unfold ctStep
+  rw [h.g.1.any_eq]
+  split
+  · split
+    · exact RRel.fail
+    · split
+      · exact RRel.fail
+      · rename_i hf
+        refine h.with ⟨h.eq6.1, h.eq6.2, h.eq6.3, h.eq6.4, h.eq6.5, h.eq6.6⟩ rfl rfl rfl rfl ?_
+        apply tagFrame_perm.app h.g
+        rw [List.find?_eq_none]
+        intro x hx
+        have hf' : c.tags.any (fun x => x.name == t.dir.param "TagName") = false := by
+          cases hh : c.tags.any (fun x => x.name == t.dir.param "TagName") with
+          | false => rfl
+          | true => exact absurd hh hf
+        exact List.any_eq_false.1 hf' x hx
+  · exact h
+
+theorem collectTags_sim (l : List BTree) : ∀ {c c' : Cat}, FSim.Rel c c' →
+    RRel FSim.Rel (collectTags l c) (collectTags l c') := by
+  induction l with
+  | nil => intro c c' h; rw [collectTags_nil, collectTags_nil]; exact h
+  | cons t l ih =>
+    intro c c' h
+    rw [collectTags_cons, collectTags_cons]
+    exact RRel.bind (ctStep_sim t h) (fun x y hxy => ih hxy)
+
+/-- two neighbours of the top level in either order -/
+theorem ctStep_comm (a b : BTree) (c : Cat) (hc : Inv c) :
+    RRel FSim.Rel (ctStep a c >>= ctStep b) (ctStep b c >>= ctStep a) := by
+  have hinv : ∀ d, (ctStep a c >>= ctStep b) = .ok d → Inv d := by
+    intro d hd
+    cases h1 : ctStep a c with
+    | error e => rw [h1] at hd; cases hd
+    | ok x => rw [h1, ok_bind] at hd; exact ctStep_inv (ctStep_inv hc h1) hd
+  by_cases ha : (a.dir.kind == .TAG) = true
+  · by_cases hb : (b.dir.kind == .TAG) = true
+    · revert hinv
+      unfold ctStep
+      simp only [ha, hb, if_true]
+      by_cases h1 : (a.dir.param "TagName").isEmpty = true
+      · simp only [h1, if_true, fail_bind]
+        intro _
+        split
+        · exact RRel.fail
+        · split
+          · exact RRel.fail
+          · exact RRel.fail
+      · by_cases h2 : (b.dir.param "TagName").isEmpty = true
+        · simp only [h2, if_true, fail_bind, h1, Bool.false_eq_true, if_false]
+          intro _
+          split <;> exact RRel.fail
+        · simp only [h1, h2, Bool.false_eq_true, if_false]
+          by_cases h3 : c.tags.any (fun x => x.name == a.dir.param "TagName") = true
+          · simp only [h3, if_true, fail_bind]
+            intro _
+            split
+            · exact RRel.fail
+            · simp only [ok_bind, List.any_append, h3, Bool.true_or, if_true]; exact RRel.fail
+          · by_cases h4 : c.tags.any (fun x => x.name == b.dir.param "TagName") = true
+            · simp only [h3, h4, Bool.false_eq_true, if_false, if_true, fail_bind, ok_bind, List.any_append,
+                Bool.true_or]
+              intro _; exact RRel.fail
+            · simp only [h3, h4, Bool.false_eq_true, if_false, ok_bind, List.any_append, Bool.false_or,
+                List.any_cons, List.any_nil, Bool.or_false]
+              by_cases h5 : a.dir.param "TagName" = b.dir.param "TagName"
+              · simp only [h5, beq_self_eq_true, if_true]; intro _; exact RRel.fail
+              · have h6 : (a.dir.param "TagName" == b.dir.param "TagName") = false := by simpa using h5
+                have h7 : (b.dir.param "TagName" == a.dir.param "TagName") = false := by
+                  simpa using (Ne.symm h5)
+                simp only [h6, h7, Bool.false_eq_true, if_false]
+                intro hinv
+                have hi := hinv _ rfl
+                exact ⟨⟨rfl, rfl, rfl, rfl, rfl, rfl⟩, ⟨List.Perm.refl _, hi.servers_nodup⟩, List.Perm.refl _,
+                  ⟨perm_snoc2 _ _ _, hi.tags_nodup⟩⟩
+    · have : ctStep b = fun x => (.ok x : R Cat) := by
+        funext x; unfold ctStep; simp only [hb, Bool.false_eq_true, if_false]
+      exact (id_comm (A := ctStep b) (B := ctStep a) (fun x => congrFun this x) c (by
+        intro d hd
+        rw [this, ok_bind] at hd
+        exact ctStep_inv hc hd)).symm_sim
+  · have : ctStep a = fun x => (.ok x : R Cat) := by
+      funext x; unfold ctStep; simp only [ha, Bool.false_eq_true, if_false]
+    exact id_comm (fun x => congrFun this x) c hinv
+
+theorem collectTags_cons' (t : BTree) (r : List BTree) :
+    collectTags (t :: r) = fun c => ctStep t c >>= collectTags r := funext (collectTags_cons t r)
+
+theorem collectTags_swap (pre post : List BTree) (a b : BTree) :
+    RRel FSim.Rel (collectTags (pre ++ a :: b :: post) {}) (collectTags (pre ++ b :: a :: post) {}) := by
+  rw [collectTags_append, collectTags_append]
+  cases h1 : collectTags pre {} with
+  | error e => trivial
+  | ok x =>
+    have hx : Inv x := collectTags_inv pre {} x Inv.empty h1
+    rw [ok_bind, ok_bind, collectTags_cons, collectTags_cons, collectTags_cons', collectTags_cons',
+      ← bind_bind, ← bind_bind]
+    exact RRel.bind (ctStep_comm a b x hx) (fun y z hyz => collectTags_sim post hyz)
+
+/-- an accepted `collectTags` has the names of the TAG directives -/
+theorem collectTags_has (l : List BTree) : ∀ (c d : Cat), collectTags l c = .ok d →
+    (∀ n ∈ c.tags.map (·.name), n ∈ d.tags.map (·.name)) ∧
+    (∀ t ∈ l, t.dir.kind = .TAG → t.dir.param "TagName" ∈ d.tags.map (·.name)) := by
+  induction l with
+  | nil => intro c d h; rw [collectTags_nil] at h; cases h; exact ⟨fun _ h => h, fun _ h => by cases h⟩
+  | cons t l ih =>
+    intro c d h
+    rw [collectTags_cons] at h
+    cases h1 : ctStep t c with
+    | error e => rw [h1] at h; cases h
+    | ok x =>
+      rw [h1, ok_bind] at h
+      obtain ⟨i1, i2⟩ := ih x d h
+      have hstep : (∀ n ∈ c.tags.map (·.name), n ∈ x.tags.map (·.name)) ∧
+          (t.dir.kind = .TAG → t.dir.param "TagName" ∈ x.tags.map (·.name)) := by
+        unfold ctStep at h1
+        split at h1
+        · split at h1
+          · cases h1
+          · split at h1
+            · cases h1
+            · cases h1
+              refine ⟨fun n hn => ?_, fun _ => ?_⟩
+              · simp only [List.map_append]; exact List.mem_append_left _ hn
+              · simp only [List.map_append]; exact List.mem_append_right _ (by simp)
+        · rename_i hk
+          cases h1
+          exact ⟨fun _ h => h, fun h => absurd (by simp [h]) hk⟩
+      refine ⟨fun n hn => i1 n (hstep.1 n hn), ?_⟩
+      intro u hu hk
+      rcases List.mem_cons.1 hu with rfl | hu
+      · exact i1 _ (hstep.2 hk)
+      · exact i2 u hu hk
+
+/-! #### `checkTypeNames`, `pathsForest`, the first directive -/
+
+theorem checkTypeNames_ok (l : List BTree) : checkTypeNames l = .ok () ↔
+    ∀ t ∈ l, ¬ (t.dir.kind == .Type && (t.dir.param "Name").isEmpty) = true := by
+  induction l with
+  | nil => rw [checkTypeNames]; simp
+  | cons t r ih =>
+    rw [checkTypeNames]
+    split
+    · rename_i h
+      constructor
+      · intro h'; cases h'
+      · intro h'; exact absurd h (h' t List.mem_cons_self)
+    · rename_i h
+      rw [ih]
+      constructor
+      · intro h' u hu
+        rcases List.mem_cons.1 hu with rfl | hu
+        · exact h
+        · exact h' u hu
+      · intro h' u hu; exact h' u (List.mem_cons_of_mem _ hu)
+
+theorem checkTypeNames_swap (pre post : List BTree) (a b : BTree) :
+    checkTypeNames (pre ++ a :: b :: post) = .ok () ↔ checkTypeNames (pre ++ b :: a :: post) = .ok () := by
+  rw [checkTypeNames_ok, checkTypeNames_ok]
+  constructor <;>
+  · intro h t ht
+    apply h t
+    simp only [List.mem_append, List.mem_cons] at ht ⊢
+    rcases ht with h | h | h | h
+    · exact Or.inl h
+    · exact Or.inr (Or.inr (Or.inl h))
+    · exact Or.inr (Or.inl h)
+    · exact Or.inr (Or.inr (Or.inr h))
+
+theorem pathsForest_nil (anc : List BDir) (last : Option Nat) : pathsForest anc [] last = .ok last := by
+  rw [pathsForest]
+
+theorem pathsForest_cons (anc : List BDir) (t : BTree) (r : List BTree) (last : Option Nat) :
+    pathsForest anc (t :: r) last = pathsTree anc t last >>= pathsForest anc r := by
+  rw [pathsForest]; cases pathsTree anc t last <;> rfl
+
+theorem pathsForest_append (anc : List BDir) (l r : List BTree) (last : Option Nat) :
+    pathsForest anc (l ++ r) last = pathsForest anc l last >>= pathsForest anc r := by
+  induction l generalizing last with
+  | nil => rw [List.nil_append, pathsForest_nil]; rfl
+  | cons t l ih =>
+    rw [List.cons_append, pathsForest_cons, pathsForest_cons, bind_bind]
+    cases pathsTree anc t last with
+    | error e => rfl
+    | ok x => exact ih x
+
+theorem pathsForest_leaves (anc : List BDir) (k : Kind) (hk : k ≠ .Macro ∧ k ≠ .Path) :
+    ∀ (kids : List BTree) (last : Option Nat), kids.all (leafOf k) = true → pathsForest anc kids last = .ok last
+  | [], last, _ => pathsForest_nil anc last
+  | t :: r, last, h => by
+    simp only [List.all_cons, Bool.and_eq_true] at h
+    obtain ⟨dk, rfl, hdk⟩ := leafOf_eq h.1
+    rw [pathsForest_cons]
+    unfold pathsTree
+    have h1 : (dk.kind == Kind.Macro) = false := by rw [hdk]; simpa using hk.1
+    have h2 : (dk.kind == Kind.Path) = false := by rw [hdk]; simpa using hk.2
+    simp only [h1, h2, Bool.false_eq_true, if_false, pathsForest_nil, ok_bind]
+    exact pathsForest_leaves anc k hk r last h.2
+
+/-- a declaration holds no Path directive -/
+theorem paths_decl (anc : List BDir) (a : BTree) (ha : isDecl a = true) (last : Option Nat) :
+    pathsTree anc a last = .ok last := by
+  cases a with
+  | node d kids =>
+  unfold pathsTree
+  rcases decl_cases ha with ⟨hk, rfl⟩ | ⟨hk, hl⟩ | ⟨hk, hl⟩
+  · rcases hk with hk | hk | hk <;> simp [hk, pathsForest_nil]
+  · simp only [hk, show (Kind.Server == Kind.Macro) = false by decide,
+      show (Kind.Server == Kind.Path) = false by decide, Bool.false_eq_true, if_false]
+    exact pathsForest_leaves _ _ (by decide) kids last hl
+  · simp only [hk, show (Kind.TAG == Kind.Macro) = false by decide,
+      show (Kind.TAG == Kind.Path) = false by decide, Bool.false_eq_true, if_false]
+    exact pathsForest_leaves _ _ (by decide) kids last hl
+
+theorem pathsForest_swap (pre post : List BTree) (a b : BTree) (ha : isDecl a = true) (last : Option Nat) :
+    pathsForest [] (pre ++ a :: b :: post) last = pathsForest [] (pre ++ b :: a :: post) last := by
+  rw [pathsForest_append, pathsForest_append]
+  congr 1
+  funext l
+  rw [pathsForest_cons, pathsForest_cons, paths_decl [] a ha, ok_bind, pathsForest_cons]
+  cases pathsTree [] b l with
+  | error e => rfl
+  | ok l' => rw [ok_bind, ok_bind, pathsForest_cons, paths_decl [] a ha, ok_bind]
+
+theorem headCheck_swap (pre post : List BTree) (a b : BTree) (hpre : pre ≠ []) :
+    headCheck (pre ++ a :: b :: post) = headCheck (pre ++ b :: a :: post) := by
+  cases pre with
+  | nil => exact absurd rfl hpre
+  | cons t r => rfl
+
+/-! #### the fold -/
+
+theorem addForest_swap (banned : List Kind) (pre post : List BTree) (a b : BTree) (ha : isDecl a = true)
+    (hb : isBlock b = true) {c0 c0' : Cat} (h0 : collectTags (pre ++ a :: b :: post) {} = .ok c0)
+    (hsim : FSim.Rel c0 c0') :
+    RRel FSim.Rel (addForest banned [] (pre ++ a :: b :: post) c0) (addForest banned [] (pre ++ b :: a :: post) c0') := by
+  have hinv0 : Inv c0 := collectTags_inv _ {} c0 Inv.empty h0
+  have htag0 : a.dir.kind = .TAG → a.dir.param "TagName" ∈ c0.tags.map (·.name) :=
+    (collectTags_has _ {} c0 h0).2 a (by simp)
+  have e1 : pre ++ a :: b :: post = pre ++ ([a, b] ++ post) := rfl
+  have e2 : pre ++ b :: a :: post = pre ++ ([b, a] ++ post) := rfl
+  rw [e1, e2, addForest_append, addForest_append]
+  have hpre := sim_lift banned [] pre hsim
+  cases h1 : addForest banned [] pre c0 with
+  | error e =>
+    rw [h1] at hpre
+    cases h2 : addForest banned [] pre c0' with
+    | error e' => trivial
+    | ok y => rw [h2] at hpre; cases hpre
+  | ok x =>
+    rw [h1] at hpre
+    cases h2 : addForest banned [] pre c0' with
+    | error e' => rw [h2] at hpre; cases hpre
+    | ok y =>
+      rw [h2] at hpre
+      have hx : Inv x := addForest_inv banned [] pre c0 x hinv0 h1
+      have htag : a.dir.kind = .TAG → a.dir.param "TagName" ∈ x.tags.map (·.name) :=
+        fun hk => has_lift banned [] pre _ (htag0 hk) h1
+      rw [ok_bind, ok_bind, addForest_append, addForest_append]
+      refine RRel.bind ?_ (fun u v huv => sim_lift banned [] post huv)
+      exact (comm banned a b ha hb x hx htag).trans_sim (sim_lift banned [] [b, a] hpre)
+
+/-- (C10) exchanging a top-level declaration with the block that follows it -/
+theorem swap_rrel (banned : List Kind) (pre post : List BTree) (a b : BTree) (ha : isDecl a = true)
+    (hb : isBlock b = true) (hpre : pre ≠ []) :
+    RRel FSim.Rel (compile banned (pre ++ a :: b :: post)) (compile banned (pre ++ b :: a :: post)) := by
+  rw [compile_eq, compile_eq]
+  have h1 := collectTags_swap pre post a b
+  cases hc : collectTags (pre ++ a :: b :: post) {} with
+  | error e =>
+    rw [hc] at h1
+    cases hc' : collectTags (pre ++ b :: a :: post) {} with
+    | error e' => trivial
+    | ok y => rw [hc'] at h1; cases h1
+  | ok c0 =>
+    rw [hc] at h1
+    cases hc' : collectTags (pre ++ b :: a :: post) {} with
+    | error e' => rw [hc'] at h1; cases h1
+    | ok c0' =>
+      rw [hc'] at h1
+      rw [ok_bind, ok_bind]
+      have h2 := checkTypeNames_swap pre post a b
+      cases ht : checkTypeNames (pre ++ a :: b :: post) with
+      | error e =>
+        cases ht' : checkTypeNames (pre ++ b :: a :: post) with
+        | error e' => trivial
+        | ok u => cases u; rw [ht'] at h2; rw [h2.2 rfl] at ht; cases ht
+      | ok u =>
+        cases u
+        rw [h2.1 ht, ok_bind, ok_bind, pathsForest_swap pre post a b ha none, headCheck_swap pre post a b hpre]
+        cases pathsForest [] (pre ++ b :: a :: post) none with
+        | error e => trivial
+        | ok l =>
+          rw [ok_bind, ok_bind]
+          cases headCheck (pre ++ b :: a :: post) with
+          | error e => trivial
+          | ok _ =>
+            rw [ok_bind, ok_bind]
+            exact RRel.bind (addForest_swap banned pre post a b ha hb hc h1) (fun x y hxy => finish_sim hxy)
+
+theorem RRel.both {Rel : Cat → Cat → Prop} {r r' : R Cat} (h : RRel Rel r r') :
+    (∀ c, r = .ok c → ∃ c', r' = .ok c' ∧ Rel c c') ∧ (∀ c', r' = .ok c' → ∃ c, r = .ok c ∧ Rel c c') := by
+  cases r with
+  | error e => cases r' with
+    | error e' => exact ⟨fun _ h => (by cases h), fun _ h => (by cases h)⟩
+    | ok y => cases h
+  | ok x => cases r' with
+    | error e' => cases h
+    | ok y =>
+      refine ⟨fun c hc => ?_, fun c' hc' => ?_⟩
+      · cases hc; exact ⟨y, rfl, h⟩
+      · cases hc'; exact ⟨x, rfl, h⟩
+
 end JSight.BuildPerm
